@@ -452,12 +452,14 @@ class FmtStr:
     def splitlines(self, keepends: bool = False) -> List["FmtStr"]:
         """Return a list of lines, split on newline characters,
         include line boundaries, if keepends is true."""
-        lines = self.split("\n")
-        return (
-            [line + "\n" for line in lines]
-            if keepends
-            else (lines if lines[-1] else lines[:-1])
-        )
+        lines = []
+        start = 0
+        text = self.s
+        for with_end, without_end in zip(text.splitlines(True), text.splitlines()):
+            end = start + len(with_end if keepends else without_end)
+            lines.append(self[start:end])
+            start += len(with_end)
+        return lines
 
     # proxying to the string via __getattr__ is insufficient
     # because we shouldn't drop foreground or formatting info
